@@ -257,9 +257,14 @@ def gen_op(rng, state):
     if rng.random() < 0.07:
         # restructuring in place (their effect on the mapping is C04's subject; here: the metadata)
         q = rng.random()
-        if q < 0.4:
+        if q < 0.3:
             return ["excludein", h, [list(gen_key(rng, node, 0.7)) for _ in range(rng.randint(1, 3))]]
-        if q < 0.6 or not any(("." in k or "::" in k) for k, _ in node[4]):
+        if q < 0.5:
+            # select(..., inplace=True): the model is given the observed result and accepts it iff every entry it keeps was
+            # there with the same metadata (Model/C01Coherence.lean selectInM)
+            return ["selectin", h, None, {"keys": [list(gen_key(rng, node, 0.8)) for _ in range(rng.randint(0, 3))],
+                                          "strict": rng.random() < 0.6}]
+        if q < 0.7 or not any(("." in k or "::" in k) for k, _ in node[4]):
             return ["flattenin", h, rng.choice([".", ".", ".", "::", "b.", ""])]
         return ["unflattenin", h, rng.choice([".", ".", ".", "::", "b.", "b", ""])]
     r = rng.random()
@@ -617,6 +622,8 @@ def apply_impl(td, op, tlimit=10.0):
                 node.update(op[4])
             elif kind == "auto":
                 node.auto_batch_size_(op[2])
+            elif kind == "selectin":
+                node.select(*[tuple(k) for k in op[3]["keys"]], inplace=True, strict=op[3]["strict"])
             elif kind == "excludein":
                 node.exclude(*[tuple(k) for k in op[2]], inplace=True)
             elif kind == "flattenin":
@@ -688,6 +695,8 @@ def sx_op(op):
         return f"(excludein {sx_path(op[1])} ({' '.join(sx_path(x) for x in op[2])}))"
     if k in ("flattenin", "unflattenin"):
         return f"({k} {sx_path(op[1])} {hexs(op[2])})"
+    if k == "selectin":
+        return f"(selectin {sx_path(op[1])} {sx_tree(op[2])})"
     if k == "write":
         return f"(write {sx_path(op[1])} {'true' if op[2] else 'false'} {sx_tree(op[3])})"
     if k == "updatetd":
